@@ -86,6 +86,7 @@ static inline long myth_sleep_queue_enq(myth_sleep_queue_t * q,
 					myth_sleep_queue_item_t t) {
   t->next = 0;
   long spin_failed = myth_spin_lock_body(q->ilock);
+  MYTH_VERIF_POINT(SQ_ENQ_LOCKED);
   myth_sleep_queue_item_t tail = q->tail;
   if (tail) {
     tail->next = t;
@@ -99,6 +100,7 @@ static inline long myth_sleep_queue_enq(myth_sleep_queue_t * q,
 
 static inline myth_sleep_queue_item_t myth_sleep_queue_deq(myth_sleep_queue_t * q) {
   myth_spin_lock_body(q->ilock);
+  MYTH_VERIF_POINT(SQ_DEQ_LOCKED);
   myth_sleep_queue_item_t head = q->head;
   if (head) {
     myth_sleep_queue_item_t next = head->next;
